@@ -128,8 +128,12 @@ def mk_factory(fld, fn, takes_self):
     return fac
 
 
+_CONV_REG = {}      # uid -> attr.Converter object (so that a spec can name an object to share)
+
+
 def mk_converter(fld, fn, kind):
-    """kind: ('plain', annotated) | ('conv', ts, tf, annotated)"""
+    """kind: ('plain', annotated) | ('conv', ts, tf, annotated)
+    fld == "" : the callable may serve several fields; its events carry a wildcard field name."""
     annotated = kind[-1]
     ann = Ann("ca_" + fn) if annotated else None
     if kind[0] == "plain":
@@ -268,6 +272,49 @@ def gen_class_spec(rng, uid, base=None, hooks_ok=True, extras=False):
         loser["init"] = False
         fx["default"] = ("factory", rng.random() < 0.3)
         f_x["default"] = ("factory", rng.random() < 0.3)
+    s["extras"] = bool(extras)
+    if extras:
+        convs = [f for f in s["fields"] if f["converter"] and f["converter"][0] == "conv"]
+        others = [f for f in s["fields"]]
+        # (a) one Converter object serving two fields of this class
+        if convs and len(others) >= 2 and rng.random() < 0.3:
+            a = rng.choice(convs)
+            b_ = rng.choice([f for f in others if f is not a])
+            b_["converter"] = a["converter"]
+            b_["conv_share"] = a.get("conv_share") or a["uid"]
+        # (b) a Converter object of the base reused here for a differently named field, while the
+        #     base's field of that name is redefined here with another converter
+        if base is not None and rng.random() < 0.5:
+            donors = []
+            c = base
+            while c is not None:
+                donors += [f for f in c.spec["fields"] if c.spec.get("extras") and f["converter"] and f["converter"][0] == "conv"]
+                c = c.spec["base"]
+            own = {f["name"]: f for f in s["fields"]}
+            donors = [d for d in donors if d["name"] in own]
+            if donors:
+                d = rng.choice(donors)
+                rec = [f for f in s["fields"] if f["name"] != d["name"]]
+                if rec:
+                    r_ = rng.choice(rec)
+                    r_["converter"] = d["converter"]
+                    r_["conv_share"] = d.get("conv_share") or d["uid"]
+                    if own[d["name"]].get("conv_share") == r_["conv_share"]:
+                        own[d["name"]].pop("conv_share")
+                        own[d["name"]]["converter"] = ("conv", False, False, False)
+        # (c) bare annotations / plain class-level defaults in the annotation front-end
+        if s["style"] == "annot":
+            if base is not None:
+                for f in s["fields"]:
+                    # re-declaring an inherited field by a bare annotation (the ancestor's slot descriptor or
+                    # class attribute of that name must not become its default)
+                    if f["name"] in base.field_names and rng.random() < 0.7:
+                        f.update({"default": None, "converter": None, "validator": False, "alias": None,
+                                  "on_setattr": None, "init": True, "kw_only": False, "bare": True})
+            for f in s["fields"]:
+                if (f["default"] in (None, "value") and f["converter"] is None and not f["validator"] and not f["alias"]
+                        and f["on_setattr"] is None and f["init"] and not f["kw_only"] and rng.random() < 0.5):
+                    f["bare"] = True
     # an undecorated class between the base and this class (dict leaves only: the slotted build's
     # immediate-bases-only reset is the documented K6 limitation)
     s["plain_between"] = bool(extras and base is not None and not s["slots"] and rng.random() < 0.25)
@@ -338,7 +385,13 @@ class ClassUnderTest:
             if f["kw_only"]:
                 kw["kw_only"] = True
             if f["converter"] is not None:
-                kw["converter"] = mk_converter(f["name"], "c_" + fu, f["converter"])
+                if s.get("extras") and f["converter"][0] == "conv":
+                    key = f.get("conv_share") or fu
+                    if key not in _CONV_REG:
+                        _CONV_REG[key] = mk_converter("", "c_" + key, f["converter"])
+                    kw["converter"] = _CONV_REG[key]
+                else:
+                    kw["converter"] = mk_converter(f["name"], "c_" + fu, f["converter"])
             if f["validator"] and f["validator_style"] == "arg":
                 kw["validator"] = mk_validator(f["name"], "v_" + fu)
             if f["alias"]:
@@ -348,6 +401,10 @@ class ClassUnderTest:
             use_annot = s["style"] in ("annot",)
             if f["type"] and not use_annot:
                 kw["type"] = Ann("t_" + fu)
+            if f.get("bare") and use_annot:
+                # annotation only (mandatory) or a plain class-level value (default)
+                field_objs.append((f, kw["default"] if f["default"] == "value" else None))
+                continue
             ca = attr.ib(**kw) if s["api"] == "attrs" else attrs.field(**kw)
             if f["validator"] and f["validator_style"] == "decorator":
                 ca.validator(mk_validator(f["name"], "v_" + fu))
@@ -356,7 +413,8 @@ class ClassUnderTest:
             if s["style"] in ("these", "make_class"):
                 these[f["name"]] = ca
             else:
-                body[f["name"]] = ca
+                if not (f.get("bare") and ca is None):
+                    body[f["name"]] = ca
                 if s["style"] == "annot":
                     anns[f["name"]] = Ann("t_" + f["uid"]) if f["type"] else int
         if anns:
